@@ -37,6 +37,13 @@ def run():
         except Exception:
             return 'trace'
     ck.reject('TraceDataset', res, key)
+    # conformance of the splitting model (inner calls as Dataset!InnerCalls): drift is reported, it is not a C08 violation
+    res2 = vlib.validate_sharded('TraceDataset', 'TraceDatasetModel.cfg', lines, 'c08m', shards=8, timeout=900)
+    ck.cov['parts']['TraceDatasetModel'] = {'trace_events_accepted': res2['accepted'], 'trace_events_total': res2['total'], 'model_drift': [x['line'][:200] for x in res2['rejected']][:5]}
+    ck.cov['states'] += res2['states']
+    ck.cov['transitions'] += res2['transitions']
+    if res2['rejected'] and not res['rejected']:
+        vlib.log('[c08] MODEL-DRIFT: inner calls differ from Dataset!InnerCalls: %s' % res2['rejected'][0]['line'][:200])
     if item_res is not None:
         ck.add_traces('TraceSs(items)', item_res, 'dataset items recomputed by the TLA+ item construction from the key')
         ck.reject('TraceSs(items)', item_res, lambda rj: 'item')
